@@ -115,7 +115,11 @@ def weights(draw, count, force=None):
     sc = 2.0 ** draw(st.sampled_from([0, 0, 0, 0, 0, 0, 0, -30]))
     if mode == "const":
         return [draw(st.sampled_from(WEIGHTS)) * sc] * count
-    return [w * sc for w in draw(st.lists(st.sampled_from(WEIGHTS), min_size=count, max_size=count))]
+    ws = draw(st.lists(st.sampled_from(WEIGHTS), min_size=count, max_size=count))
+    if count >= 3 and draw(st.integers(0, 3)) == 0:
+        # as in most real models (arcs, revolved shapes): unit weights at the first and last control point, others inside
+        ws[0] = ws[-1] = 1.0
+    return [w * sc for w in ws]
 
 
 @st.composite
@@ -200,8 +204,11 @@ def spline(draw, kinds=("curve", "surface", "volume"), rational=None, max_p=4, m
         count *= s
     P = draw(points(count, dim, distinct=distinct))
     W = draw(weights(count, force=wmode)) if rat else None
+    as_int = draw(st.integers(0, 9)) == 0
+    if as_int:
+        P = [[c * 8.0 for c in q] for q in P]          # whole numbers, which build.make hands over as ints
     return {"kind": kind, "rational": rat, "normalize": norm, "degree": degs, "size": szs, "kv": kvs,
-            "P": P, "W": W, "dim": dim, "unclamped": uncl, "affine": aff, "kv_tuple": draw(st.integers(0, 5)) == 0}
+            "P": P, "W": W, "dim": dim, "unclamped": uncl, "affine": aff, "kv_tuple": draw(st.integers(0, 5)) == 0, "as_int": as_int}
 
 
 @st.composite
